@@ -4,14 +4,16 @@
     direction, the requested row window and limit are respected, and the has-more flag is set exactly when rows
     beyond the limit exist."
 
-   The model (Table/Model.v) is dual: [fixed = false] is internal/api/table.go as it is, [fixed = true] the repaired
-   variant. Theorems without a suffix hold for the stated variant(s) over ALL inputs; [_partial] says what is missing;
+   The model (Table/Model.v) is dual with one switch per recorded defect ([fixes]: f_pad F-C25a, f_panic F-C25b,
+   f_more F-C25c, f_skip F-C25d, f_tags F-C25e, f_skey F-C25f); [fx_all false] is internal/api/table.go as it is, a
+   switch that is on = the defect repaired as in work/C25/fix_<id>.diff. A theorem names exactly the switches it
+   needs ([forall fx] alone = every variant, in particular the code as it is); [_partial] says what is missing;
    [_refuted] exhibits an input on which the code as it is violates the clause (each one is replayed on the real
    getTableFromLODs by the harness: findings F-C25a..f).
    This file holds only statements closed by [exact], and non-vacuity examples. *)
 From Coq Require Import ZArith List Bool Sorted.
 From SH Require Import Table.Model Table.Proofs Table.ProofsTable Table.ProofsLimit Table.ProofsSort
-  Table.ProofsWindow Table.ProofsExtra.
+  Table.ProofsWindow Table.ProofsMore Table.ProofsExtra.
 Import ListNotations.
 Open Scope Z_scope.
 
@@ -26,35 +28,36 @@ Proof. exact handler_whats_total. Qed.
    the code comment states ("rows are keyed by (time, tags) and each key belongs to exactly one LOD"): within one
    function group no (time, tags) is inserted twice *)
 Theorem C25_one_column_per_function :
-  forall whats lods by_ by_s from to fe num desired store,
-  (forall p, NoDup (map rkey (pass_flat true lods from to fe num store p))) ->
-  forall o, In o (table_rows true whats lods by_ by_s from to fe num desired store) ->
+  forall fx whats lods by_ by_s from to fe num desired store,
+  f_pad fx = true ->
+  (forall p, NoDup (map rkey (pass_flat fx lods from to fe num store p))) ->
+  forall o, In o (table_rows fx whats lods by_ by_s from to fe num desired store) ->
   length (o_data o) = length whats.
 Proof. exact one_column_fixed. Qed.
 
 (* the code as it is: only for at most 7 requested functions (then it also cannot panic) *)
 Theorem C25_one_column_per_function_upto7_partial :
-  forall whats lods by_ by_s from to fe num desired store,
+  forall fx whats lods by_ by_s from to fe num desired store,
   (length whats <= ts_value_count)%nat ->
-  NoDup (map rkey (pass_flat false lods from to fe num store O)) ->
-  panics false whats lods from to fe num store = false /\
-  forall o, In o (table_rows false whats lods by_ by_s from to fe num desired store) ->
+  NoDup (map rkey (pass_flat fx lods from to fe num store O)) ->
+  panics fx whats lods from to fe num store = false /\
+  forall o, In o (table_rows fx whats lods by_ by_s from to fe num desired store) ->
   length (o_data o) = length whats.
 Proof. exact one_column_upto7. Qed.
 
 (* F-C25a: with 8 functions (two function groups) the code as it is pads one NaN per group instead of one per function *)
 Theorem C25_one_column_per_function_refuted :
   exists whats lods by_ by_s from to fe num desired store,
-    (forall p, NoDup (map rkey (pass_flat false lods from to fe num store p))) /\
-    panics false whats lods from to fe num store = false /\
-    exists o, In o (table_rows false whats lods by_ by_s from to fe num desired store) /\
+    (forall p, NoDup (map rkey (pass_flat (fx_all false) lods from to fe num store p))) /\
+    panics (fx_all false) whats lods from to fe num store = false /\
+    exists o, In o (table_rows (fx_all false) whats lods by_ by_s from to fe num desired store) /\
               length (o_data o) <> length whats.
 Proof. exact one_column_refuted. Qed.
 
 (* F-C25b: 8 functions that share selectors form one group of 8 and index the 7-entry tsWhat out of range *)
 Theorem C25_no_panic_refuted :
   exists whats lods by_ by_s from to fe num desired store,
-    table false whats lods by_ by_s from to fe num desired store = None.
+    table (fx_all false) whats lods by_ by_s from to fe num desired store = None.
 Proof. exact no_panic_refuted. Qed.
 
 (* ---------------- "rows are unique by time and tags" (both variants, all inputs) -------- *)
@@ -67,9 +70,10 @@ Proof. exact rows_unique. Qed.
 
 (* repaired variant: strongly sorted by (time, group-by tag values, string key) of the rows themselves *)
 Theorem C25_rows_sorted_in_direction :
-  forall whats lods by_ by_s from to fe num desired store,
+  forall fx whats lods by_ by_s from to fe num desired store,
+  f_tags fx = true -> f_skey fx = true ->
   StronglySorted (fun a b => true_le by_ by_s fe a b = true)
-    (table_rows true whats lods by_ by_s from to fe num desired store).
+    (table_rows fx whats lods by_ by_s from to fe num desired store).
 Proof. exact rows_sorted_true_fixed. Qed.
 
 (* both variants: strongly sorted with respect to the row markers stored with the rows (which, in the code as it is,
@@ -81,15 +85,16 @@ Theorem C25_rows_sorted_by_stored_marker_partial :
 Proof. exact rows_sorted. Qed.
 
 Theorem C25_marker_describes_row :
+  forall fx, f_tags fx = true -> f_skey fx = true ->
   forall lods by_ by_s from to fe num desired store whats o,
-  In o (table_rows true whats lods by_ by_s from to fe num desired store) ->
+  In o (table_rows fx whats lods by_ by_s from to fe num desired store) ->
   o_repr o = repr_of by_ by_s (o_row o).
 Proof. exact marker_describes_row_fixed. Qed.
 
 (* F-C25e: aliasing of rowRepr.Tags: two rows come out in the wrong order, the second with another row's tags *)
 Theorem C25_rows_sorted_in_direction_refuted :
   exists whats lods by_ by_s from to num desired store a b,
-    table false whats lods by_ by_s from to false num desired store = Some ([a; b], false) /\
+    table (fx_all false) whats lods by_ by_s from to false num desired store = Some ([a; b], false) /\
     less (repr_of by_ by_s (o_row b)) (repr_of by_ by_s (o_row a)) = true /\
     o_repr b <> repr_of by_ by_s (o_row b).
 Proof. exact sorted_refuted. Qed.
@@ -97,7 +102,7 @@ Proof. exact sorted_refuted. Qed.
 (* F-C25f: stale rowRepr.SKey *)
 Theorem C25_marker_describes_row_refuted :
   exists whats lods by_ by_s from to num desired store o,
-    In o (table_rows false whats lods by_ by_s from to false num desired store) /\
+    In o (table_rows (fx_all false) whats lods by_ by_s from to false num desired store) /\
     m_skey (o_repr o) <> m_skey (repr_of by_ by_s (o_row o)).
 Proof. exact stale_skey_refuted. Qed.
 
@@ -139,8 +144,8 @@ Proof. exact limit_queries_rows. Qed.
 
 (* ... and in the repaired variant the visiting order loses no in-window row of the storage answer *)
 Theorem C25_window_complete :
-  forall from to fe gs limit,
-  fst (limit_queries true from to fe gs limit) =
+  forall from to fe fx, f_skip fx = true -> forall gs limit,
+  fst (limit_queries fx from to fe gs limit) =
   firstn (Z.to_nat limit) (filter (in_range from to fe) (concat (if fe then rev gs else gs))).
 Proof. exact limit_queries_rows_fixed. Qed.
 
@@ -148,7 +153,7 @@ Proof. exact limit_queries_rows_fixed. Qed.
 Theorem C25_window_complete_refuted :
   exists from to fe gs limit r,
     In r (concat gs) /\ in_range from to fe r = true /\ cnt from to fe (concat gs) <= limit /\
-    ~ In r (fst (limit_queries false from to fe gs limit)) /\ snd (limit_queries false from to fe gs limit) = false.
+    ~ In r (fst (limit_queries (fx_all false) from to fe gs limit)) /\ snd (limit_queries (fx_all false) from to fe gs limit) = false.
 Proof. exact window_complete_refuted. Qed.
 
 (* ---------------- "the has-more flag is set exactly when rows beyond the limit exist" -------- *)
@@ -163,31 +168,54 @@ Proof. exact table_more_spec. Qed.
 (* exact characterisation for the code as it is: limit <= 0 with any time slot returned, or a further row is VISITED
    after the limit-th kept row (whether or not that row is inside the window) *)
 Theorem C25_has_more_characterisation :
-  forall from to fe gs limit,
-  snd (limit_queries false from to fe gs limit) = true <->
+  forall from to fe fx, f_more fx = false -> forall gs limit,
+  snd (limit_queries fx from to fe gs limit) = true <->
   (limit <= 0 /\ gs <> []) \/
-  (0 < limit /\ exists pre r post, scan_seq false from to fe gs = pre ++ r :: post /\ cnt from to fe pre = limit).
+  (0 < limit /\ exists pre r post, scan_seq fx from to fe gs = pre ++ r :: post /\ cnt from to fe pre = limit).
 Proof. exact limit_queries_more_faithful. Qed.
 
 (* repaired variant: exactly when the storage answer holds more in-window rows than the limit *)
 Theorem C25_has_more_spec :
-  forall from to fe gs limit,
-  snd (limit_queries true from to fe gs limit) = true <-> Z.max 0 limit < cnt from to fe (concat gs).
+  forall from to fe fx, f_more fx = true -> f_skip fx = true -> forall gs limit,
+  snd (limit_queries fx from to fe gs limit) = true <-> Z.max 0 limit < cnt from to fe (concat gs).
 Proof. exact limit_queries_more_fixed. Qed.
+
+(* the whole table, over ALL LODs (quota numResults - rowsCount threaded through the LOD list in the requested
+   direction, LOD overlap test included): with F-C25c and F-C25d repaired the flag is set exactly when, for some
+   function group, the storage answers of the LODs that overlap the time bounds hold more in-window rows than the
+   limit. Row times are unix timestamps (0 <= t <= MaxInt64). *)
+Theorem C25_has_more_iff_rows_beyond_limit :
+  forall fx whats lods by_ by_s from to fe num desired store,
+  f_more fx = true -> f_skip fx = true ->
+  (forall p k r, In r (concat (store p k)) -> 0 <= r_time r <= max_int) ->
+  (table_more fx whats lods by_ by_s from to fe num desired store = true <->
+   exists p, (p < length (handler_whats whats))%nat /\ Z.max 0 num < window_total lods from to fe store p).
+Proof. exact table_more_fixed. Qed.
+
+(* every variant, in particular the code as it is: exact characterisation across the LODs. The flag of a function
+   group is raised by the first overlapping LOD, in visiting order, whose limitQueries reports more
+   (C25_has_more_characterisation) for the quota that is left after subtracting the in-window rows visible in the
+   earlier LODs ([first_more], ProofsMore.v) *)
+Theorem C25_has_more_across_lods :
+  forall fx whats lods by_ by_s from to fe num desired store,
+  (forall p k r, In r (concat (store p k)) -> 0 <= r_time r <= max_int) ->
+  table_more fx whats lods by_ by_s from to fe num desired store =
+  existsb (fun p => first_more fx from to fe store p (lod_order lods fe) num) (seq 0 (length (handler_whats whats))).
+Proof. exact table_more_threaded. Qed.
 
 (* F-C25c: the code as it is raises has-more although no in-window row beyond the limit exists *)
 Theorem C25_has_more_refuted :
   exists from to fe gs limit,
-    snd (limit_queries false from to fe gs limit) = true /\ ~ (Z.max 0 limit < cnt from to fe (concat gs)).
+    snd (limit_queries (fx_all false) from to fe gs limit) = true /\ ~ (Z.max 0 limit < cnt from to fe (concat gs)).
 Proof. exact has_more_refuted. Qed.
 
 (* ---------------- non-vacuity ---------------- *)
 (* a two-group (8 functions) query whose second storage answer has an extra row: hypotheses hold, rows have 8 columns,
    the row missing from the first group is NaN-padded on the left *)
 Example C25_nonvacuous_one_column :
-  (forall p, NoDup (map rkey (pass_flat true w_lods w_m0 w_m0 false 10 w_store_a p))) /\
-  map (fun o => length (o_data o)) (table_rows true w_whats8 w_lods [] false w_m0 w_m0 false 10 0 w_store_a) = [8%nat; 8%nat] /\
-  map o_data (table_rows true w_whats8 w_lods [] false w_m0 w_m0 false 10 0 w_store_a) =
+  (forall p, NoDup (map rkey (pass_flat (fx_all true) w_lods w_m0 w_m0 false 10 w_store_a p))) /\
+  map (fun o => length (o_data o)) (table_rows (fx_all true) w_whats8 w_lods [] false w_m0 w_m0 false 10 0 w_store_a) = [8%nat; 8%nat] /\
+  map o_data (table_rows (fx_all true) w_whats8 w_lods [] false w_m0 w_m0 false 10 0 w_store_a) =
     [[Some 4; Some 8; Some 2; Some 0; Some 1; Some 1; Some 0; Some 0];
      [None; None; None; None; None; None; None; Some 0]].
 Proof. exact one_column_fixed_nonvacuous. Qed.
@@ -195,16 +223,24 @@ Proof. exact one_column_fixed_nonvacuous. Qed.
 (* two LODs, a from-marker inside the first time slot, limit 3 reached in the second LOD: three aligned rows, has-more *)
 Example C25_nonvacuous_upto7 :
   (length [3; 6] <= ts_value_count)%nat /\
-  NoDup (map rkey (pass_flat false nv_lods (mkMarker 101 [(0, 1)] []) w_m0 false 3 nv_store O)) /\
-  table false [3; 6] nv_lods [] false (mkMarker 101 [(0, 1)] []) w_m0 false 3 0 nv_store =
+  NoDup (map rkey (pass_flat (fx_all false) nv_lods (mkMarker 101 [(0, 1)] []) w_m0 false 3 nv_store O)) /\
+  table (fx_all false) [3; 6] nv_lods [] false (mkMarker 101 [(0, 1)] []) w_m0 false 3 0 nv_store =
     Some ([mkO (w_row 101 2 [97]) [Some 4; Some 8] (mkMarker 101 [] []);
            mkO (w_row 103 1 []) [Some 4; Some 8] (mkMarker 103 [] []);
            mkO (w_row 111 1 []) [Some 4; Some 8] (mkMarker 111 [] [])], true).
 Proof. exact upto7_nonvacuous. Qed.
 
 Example C25_nonvacuous_has_more :
-  snd (limit_queries true w_m0 w_m0 false (nv_store 0 0)%nat 2) = true /\
+  snd (limit_queries (fx_all true) w_m0 w_m0 false (nv_store 0 0)%nat 2) = true /\
   Z.max 0 2 < cnt w_m0 w_m0 false (concat (nv_store 0 0)%nat) /\
-  snd (limit_queries true w_m0 w_m0 false (nv_store 0 0)%nat 3) = false /\
-  snd (limit_queries false w_m0 w_m0 true (nv_store 0 0)%nat 2) = true.
+  snd (limit_queries (fx_all true) w_m0 w_m0 false (nv_store 0 0)%nat 3) = false /\
+  snd (limit_queries (fx_all false) w_m0 w_m0 true (nv_store 0 0)%nat 2) = true.
 Proof. exact has_more_nonvacuous. Qed.
+
+Example C25_nonvacuous_has_more_all_lods :
+  (forall p k r, In r (concat (nv_store p k)) -> 0 <= r_time r <= max_int) /\
+  window_total nv_lods w_m0 w_m0 false nv_store O = 5 /\
+  table_more (fx_all true) [1] nv_lods [] false w_m0 w_m0 false 3 0 nv_store = true /\
+  table_more (fx_all true) [1] nv_lods [] false w_m0 w_m0 false 5 0 nv_store = false /\
+  table_more (fx_all true) [1] nv_lods [] false w_m0 w_m0 true 4 0 nv_store = true.
+Proof. exact has_more_all_lods_nonvacuous. Qed.
